@@ -3126,3 +3126,101 @@ func derefType(t types.Type) types.Type {
 	}
 	return t
 }
+
+// liveIndexesAreReadUnderTheLock: the entry index and the predecessor index of a log are edited in place by the
+// writers, so whoever reads them — also through a local that was loaded from the field while the lock was held —
+// does so while the log's lock is held. A copy taken after the unlock runs beside Append's insertions: the map's own
+// read lock is taken recursively by its accessors, a writer that queues up between two of those acquisitions blocks
+// the reader and is blocked by it, and it still holds the log's lock.
+func liveIndexesAreReadUnderTheLock(c *Ctx, r *Report, rule string) {
+	p := c.P
+	lockF := p.Field("", "IPFSLog", "lock")
+	live := map[*types.Var]bool{p.Field("", "IPFSLog", "Entries"): true, p.Field("", "IPFSLog", "Next"): true}
+	n := 0
+	for _, fn := range p.Fns {
+		if fn.Body == nil || fn.Decl == nil || fn.Decl.Recv == nil || fn.Pkg.PkgPath != p.pkgPath("") {
+			continue
+		}
+		fn := fn
+		lockOp := func(call *ast.CallExpr) string {
+			se, ok := ast.Unparen(call.Fun).(*ast.SelectorExpr)
+			if !ok {
+				return ""
+			}
+			if v, _ := p.FieldSel(fn, se.X); v != lockF {
+				return ""
+			}
+			return se.Sel.Name
+		}
+		locks := false
+		walkNoLit(fn.Body, func(nd ast.Node) bool {
+			if call, ok := nd.(*ast.CallExpr); ok && (lockOp(call) == "Lock" || lockOp(call) == "RLock") {
+				locks = true
+			}
+			return true
+		})
+		if !locks {
+			continue // runs under its caller's lock: the lock engine's business
+		}
+		// locals loaded from a live index
+		alias := map[types.Object]string{}
+		walkNoLit(fn.Body, func(nd ast.Node) bool {
+			as, ok := nd.(*ast.AssignStmt)
+			if !ok || len(as.Lhs) != len(as.Rhs) {
+				return true
+			}
+			for i, rh := range as.Rhs {
+				if v, _ := p.FieldSel(fn, rh); v != nil && live[v] {
+					if id, ok := ast.Unparen(as.Lhs[i]).(*ast.Ident); ok {
+						if o := p.ObjOf(fn, id); o != nil {
+							alias[o] = v.Name()
+						}
+					}
+				}
+			}
+			return true
+		})
+		fl := &Flow{P: p, Fn: fn, Entry: Facts{}}
+		fl.Node = func(nd ast.Node, f Facts) {
+			walkNoLit(nd, func(m ast.Node) bool {
+				if call, ok := m.(*ast.CallExpr); ok {
+					switch lockOp(call) {
+					case "Lock", "RLock":
+						f["held"] = true
+					case "Unlock", "RUnlock":
+						delete(f, "held")
+					}
+				}
+				return true
+			})
+		}
+		fl.Run()
+		fl.Visit(func(_ *cfgBlk, nd ast.Node, before Facts) {
+			walkNoLit(nd, func(m ast.Node) bool {
+				call, ok := m.(*ast.CallExpr)
+				if !ok {
+					return true
+				}
+				se, ok := ast.Unparen(call.Fun).(*ast.SelectorExpr)
+				if !ok {
+					return true
+				}
+				what := ""
+				if v, _ := p.FieldSel(fn, se.X); v != nil && live[v] {
+					what = v.Name()
+				} else if id, ok := ast.Unparen(se.X).(*ast.Ident); ok {
+					what = alias[p.ObjOf(fn, id)]
+				}
+				if what == "" {
+					return true
+				}
+				n++
+				r.Check(before["held"], rule, r.Key(rule, fn, "live-index-read", what+"."+se.Sel.Name), call.Pos(),
+					"the live "+what+" index is used here while the log's lock is held",
+					fmt.Sprintf("%s calls %s on the log's live %s index on a path on which the log's lock is not held: the index is edited in place by Append and Join, and its accessors take its own read lock recursively — a writer that queues up in between blocks the reader and is blocked by it while it holds the log's lock, and every later operation on the log hangs", fn.Name, se.Sel.Name, what))
+				return true
+			})
+		})
+	}
+	r.Floor(rule, "uses of the live indexes in the locking methods of the log", n, 5)
+}
